@@ -72,9 +72,42 @@ def unfoldings(op, X, mode):
 
 
 # ------------------------------------------------------------------------------------------ one call
+def rank_argument(c, rspec, frac):
+    """The `rank` argument in the documented form `rspec` standing for the rank vector c["rank"]."""
+    r = [int(x) for x in c["rank"]]
+    if rspec == "list":
+        return list(r)
+    if rspec == "tuple":
+        return tuple(r)
+    if rspec == "npint":
+        return [np.int64(x) if k % 2 == 0 else np.int32(x) for k, x in enumerate(r)]
+    if rspec == "int":
+        return r[0] if c["op"] in ("tucker", "tr") else r[1]
+    if rspec == "none":
+        return None
+    if rspec == "same":
+        return "same"
+    if rspec == "float":
+        return frac / 100.0
+    raise ValueError(rspec)
+
+
+def uniform_rank(c):
+    r = c["rank"]
+    if c["op"] in ("tucker", "tr"):
+        return len(set(r)) == 1
+    return len(r) >= 3 and r[0] == 1 and r[-1] == 1 and len(set(r[1:-1])) == 1
+
+
+def placeholder_rank(op, shape):
+    n = len(shape)
+    return [1] * (n if op == "tucker" else n // 2 + 1 if op == "ttm" else n + 1)
+
+
 def execute(case):
     import tensorly as tl
-    from tensorly.decomposition import tucker, tensor_train, tensor_train_matrix, tensor_ring
+    from tensorly.decomposition import (tucker, tensor_train, tensor_train_matrix, tensor_ring,
+                                        Tucker, TensorTrain, TensorTrainMatrix, TensorRing)
     c, t = case["cfg"], case["ten"]
     X = matching_tensor(t) if t["op"] == "matching" else measured_tensor(t)
     dtype = case.get("dtype", "float64")
@@ -95,22 +128,51 @@ def execute(case):
         ev["tails"] = tails
     out = {"raised": False, "exc": "none", "ranks": [], "err2_q": 0, "fin": False}
     np.random.seed(case["seed"] % (2**32))       # tensor_train / tensor_ring have no random_state argument
+    rspec, via = case.get("rspec", "list"), case.get("via", "function")
+    ev["rspec"], ev["frac"], ev["via"] = rspec, int(case.get("frac", 0)), via
+    if via == "refit":
+        ev["pre"] = [int(d) for d in case["pre"]]
     try:
-        rank = [int(r) for r in c["rank"]]
+        rank = rank_argument(c, rspec, ev["frac"])
+        Xt = tl.tensor(Xin)
+        if via == "function":
+            if c["op"] == "tucker":
+                dec = tucker(Xt, rank=rank, n_iter_max=case["iters"], init="svd", svd=case["svd"], random_state=case["seed"])
+            elif c["op"] == "tt":
+                dec = tensor_train(Xt, rank=rank, svd=case["svd"])
+            elif c["op"] == "ttm":
+                dec = tensor_train_matrix(Xt, rank=rank, svd=case["svd"])
+            elif c["op"] == "tr":
+                dec = tensor_ring(Xt, rank=rank, mode=c["mode"], svd=case["svd"])
+            else:
+                raise AssertionError(c["op"])
+        else:
+            if c["op"] == "tucker":
+                est = Tucker(rank=rank, n_iter_max=case["iters"], init="svd", svd=case["svd"], random_state=case["seed"])
+            elif c["op"] == "tt":
+                est = TensorTrain(rank=rank, svd=case["svd"])
+            elif c["op"] == "ttm":
+                est = TensorTrainMatrix(rank=rank, svd=case["svd"])
+            elif c["op"] == "tr":
+                est = TensorRing(rank=rank, mode=c["mode"], svd=case["svd"])
+            else:
+                raise AssertionError(c["op"])
+            if via == "refit":       # the same estimator object, first fitted on another tensor (its outcome is not judged)
+                prng = np.random.RandomState(case["seed"] % (2**31))
+                P = prng.randint(-3, 4, size=tuple(case["pre"])).astype(dtype)
+                try:
+                    est.fit_transform(tl.tensor(P))
+                except Exception:
+                    pass
+            dec = est.fit_transform(Xt)
         if c["op"] == "tucker":
-            dec = tucker(tl.tensor(Xin), rank=rank, n_iter_max=case["iters"], init="svd", svd=case["svd"], random_state=case["seed"])
             ranks, rec = list(np.shape(dec[0])), tl.tucker_to_tensor(dec)
         elif c["op"] == "tt":
-            dec = tensor_train(tl.tensor(Xin), rank=rank, svd=case["svd"])
             ranks, rec = list(dec.rank), tl.tt_to_tensor(dec)
         elif c["op"] == "ttm":
-            dec = tensor_train_matrix(tl.tensor(Xin), rank=rank, svd=case["svd"])
             ranks, rec = list(dec.rank), dec.to_tensor()
-        elif c["op"] == "tr":
-            dec = tensor_ring(tl.tensor(Xin), rank=rank, mode=c["mode"], svd=case["svd"])
-            ranks, rec = list(dec.rank), tl.tr_to_tensor(dec)
         else:
-            raise AssertionError(c["op"])
+            ranks, rec = list(dec.rank), tl.tr_to_tensor(dec)
         out["ranks"] = [int(r) for r in ranks]
         rec = np.asarray(rec).astype(np.float64)      # err^2 is measured in float64 against the float64 tensor
         if rec.shape == X.shape:
@@ -170,9 +232,34 @@ def measured_cases(rng, reps, dtypes, shapes=MEASURED_SHAPES, fams=("generic", "
                 for c in cfgs:
                     for svd in ("truncated_svd", "symeig_svd"):
                         for dt in (dts if all_dtypes else [rng.choice(dts)]):
-                            cases.append({"cfg": c, "ten": ten, "svd": svd, "dtype": dt,
-                                          "iters": rng.choice([0, 1, 50]) if c["op"] == "tucker" else 0})
+                            case = {"cfg": c, "ten": ten, "svd": svd, "dtype": dt,
+                                    "iters": rng.choice([0, 1, 50]) if c["op"] == "tucker" else 0}
+                            case.update(rank_form(rng, c, len(cases)))
+                            cases.append(case)
+                # rank specifications the routine resolves itself
+                for op in ("tucker", "tt", "tr") + (("ttm",) if N % 2 == 0 else ()):
+                    for rs, frac in (("same", 0), ("float", rng.choice([25, 50, 100]))):
+                        cases.append({"cfg": {"op": op, "shape": list(shape), "rank": placeholder_rank(op, shape),
+                                              "mode": rng.randrange(N) if op == "tr" else 0},
+                                      "ten": ten, "svd": "truncated_svd", "dtype": rng.choice(dts), "iters": 0, "rspec": rs, "frac": frac,
+                                      "via": rng.choice(["function", "class"])})
     return cases
+
+
+def rank_form(rng, c, k):
+    """Rotates the documented ways of passing the same rank vector and the call paths."""
+    rs = ("list", "tuple", "npint")[k % 3]
+    via = ("function", "function", "class", "function", "refit")[k % 5]
+    if uniform_rank(c) and k % 2 == 0:
+        rs = "int"
+    if c["op"] == "tucker" and list(c["rank"]) == list(c["shape"]) and k % 4 != 3:
+        rs = "none"
+    out = {"rspec": rs, "frac": 0, "via": via}
+    if via == "refit":
+        if rs in ("tuple", "npint"):
+            out["rspec"] = "list"            # a mutable list is what an estimator could corrupt between fits
+        out["pre"] = [2] * len(c["shape"])
+    return out
 
 
 def run(chk, opts):
@@ -206,8 +293,19 @@ def run(chk, opts):
         methods = svds if (thorough or len(c["shape"]) <= 3) else [svds[k % len(svds)]]
         for m, svd in enumerate(methods):
             ten = rng.choice(full) if rng.random() < 0.7 else rng.choice(pool)
-            cases.append({"cfg": c, "ten": ten, "svd": svd, "iters": iters[(k + m) % len(iters)] if c["op"] == "tucker" else 0,
-                          "dtype": dtypes[(k // 2 + m) % len(dtypes)]})      # matching tensors are integer valued: every dtype applies
+            case = {"cfg": c, "ten": ten, "svd": svd, "iters": iters[(k + m) % len(iters)] if c["op"] == "tucker" else 0,
+                    "dtype": dtypes[(k // 2 + m) % len(dtypes)]}             # matching tensors are integer valued: every dtype applies
+            case.update(rank_form(rng, c, k + 7 * m))
+            cases.append(case)
+    # rank specifications the routine resolves itself ('same', float), on a matching tensor of every shape
+    for shape in sorted(tens):
+        pool = tens[shape]
+        for op in ("tucker", "tt", "tr") + (("ttm",) if len(shape) % 2 == 0 else ()):
+            for j, (rs, frac) in enumerate((("same", 0), ("float", 25), ("float", 50), ("float", 100))):
+                cases.append({"cfg": {"op": op, "shape": list(shape), "rank": placeholder_rank(op, shape),
+                                      "mode": rng.randrange(len(shape)) if op == "tr" else 0},
+                              "ten": rng.choice(pool), "svd": svds[j % len(svds)] if op != "tucker" else "truncated_svd", "iters": 0,
+                              "dtype": dtypes[j % len(dtypes)], "rspec": rs, "frac": frac, "via": ("function", "class")[j % 2]})
     n_exact = len(cases)
     if thorough or opts.get("measured"):
         cases += measured_cases(rng, int(opts.get("reps", 3 if thorough else 1)), dtypes)
@@ -228,7 +326,7 @@ def run(chk, opts):
                 % (len(algs), sum(len(v) for v in tens.values()), ", all in thorough" if thorough else "", len(cases) - n_exact))
     for e in events:
         if "cfg" in e:
-            chk.distinct.add((str(e["cfg"]), e["svd"], e["iters"], e["dtype"]))
+            chk.distinct.add((str(e["cfg"]), e["svd"], e["iters"], e["dtype"], e["rspec"], e["frac"], e["via"]))
     for e in events[:1] + events[n_exact - 1:n_exact] + events[-1:]:
         if "cfg" in e:
             chk.sample({k: v for k, v in e.items() if k != "data"})
@@ -239,7 +337,7 @@ def run(chk, opts):
         chk.violations.append({"property": chk.pid, "id": rid, "clause": clause, "case": dict(case, derived=derived(case)),
                                "event": {k: v for k, v in by_id[rid].items() if k != "data"}, "extra": None,
                                "tier": chk.tier, "seed": chk.seed, "repo_commit": commit})
-    covered = {str(e["cfg"]) for e in events[:n_exact] if "cfg" in e}
+    covered = {str(e["cfg"]) for e in events[:n_exact] if "cfg" in e and e["rspec"] not in ("same", "float")}
     chk.exhaustive = False
     chk.notes["all_rank_configurations_exercised"] = len(covered) == len(algs)
     chk.assumptions += ["NumPy backend only", "matching tensors are sampled from the spec's domain (every rank configuration is exercised)",
